@@ -17,6 +17,9 @@ for p in sorted(glob.glob("/verif/seeded/C*/meta.json")):
     if len(summ) > 150:
         summ = summ[:147] + "..."
     det = "**yes**" if chk.get("detected") else "**no**"
+    alt = m.get("also_checked_with")
+    if alt and not chk.get("detected"):
+        det = "no; **yes** by %s" % alt["property"] if alt.get("detected") else "**no** (nor by %s)" % alt["property"]
     note = m.get("note", "")
     if note:
         note = note.split(";")[0].split(". ")[0]
@@ -28,5 +31,6 @@ print("| id | file(s) | change | confirmed (applies, builds, baseline green, dem
 print("|---|---|---|---|---|---|")
 print("\n".join(rows))
 n = len(rows)
-d = sum(1 for r in rows if "**yes**" in r)
-print("\n%d of %d caught by the quick tier of the property's check on the current tree." % (d, n))
+d = sum(1 for r in rows if "| **yes**" in r)
+d2 = sum(1 for r in rows if "**yes** by" in r)
+print("\n%d of %d caught by the quick tier of the property's own check on the current tree, %d more by the quick tier of another property's check." % (d, n, d2))
